@@ -108,3 +108,32 @@ def matrix():
 
 if __name__ == "__main__" and len(sys.argv) > 1 and sys.argv[1] == "matrix":
     matrix()
+
+
+def neutral():
+    """Behaviour-preserving refactors under /verif/neutral/<area>-<k>/patch.diff: every check must stay silent
+    (exit 0) with each of them applied.  Prints the ones where a check reports a VIOLATION (a false alarm to
+    correct) or an analysis error (an idiom the analysis does not read yet)."""
+    import glob
+    bad = 0
+    for d in sorted(glob.glob("/verif/neutral/*/")):
+        patch = d + "patch.diff"
+        r = subprocess.run([sys.executable, __file__, "try", patch], capture_output=True, text=True)
+        try:
+            res = json.loads(r.stdout)
+        except ValueError:
+            print(d, "could not be tried:", r.stdout[-200:])
+            bad += 1
+            continue
+        viol = sorted(p for p, x in res.items() if x.get("rc") == 1)
+        err = sorted(p for p, x in res.items() if x.get("rc") == 2)
+        bad += bool(viol or err)
+        print(os.path.basename(d.rstrip("/")), "VIOL", viol, "ERR", err, flush=True)
+        for p in viol + err:
+            print("    ", p, res[p]["first"][:1])
+    print("neutral refactors with a report:", bad)
+    return 1 if bad else 0
+
+
+if __name__ == "__main__" and len(sys.argv) > 1 and sys.argv[1] == "neutral":
+    sys.exit(neutral())
